@@ -394,15 +394,19 @@ func parseOps(s string) []op {
 // dispatcher knows (tss.full, lsn.hist); cmd/c06 (used by C07) passes false.
 func Main(c06only bool) {
 	a := lib.ParseArgs()
-	if os.Getenv(lsnChildEnv) != "" {
-		lsnChild(a)
+	if v := os.Getenv(lsnChildEnv); v != "" {
+		if v == "slow" {
+			lsnSlowChild(a)
+		} else {
+			lsnChild(a)
+		}
 		return
 	}
 	timebase.RegisterClock(clk)
 	w = lib.NewWriter(a.Out)
 	defer w.Close()
 	if a.Replay != "" {
-		var lsnLines [][3]string
+		var lsnLines, slowLines [][3]string
 		fullSeen := map[string]bool{}
 		for _, l := range lib.ReplayLines(a.Replay) {
 			switch l[0] {
@@ -421,20 +425,26 @@ func Main(c06only bool) {
 				}
 			case "lsn.hist":
 				lsnLines = append(lsnLines, l)
+			case "lsn.slowlink":
+				slowLines = append(slowLines, l)
 			case "tss.lockdiscipline":
 				lockDiscipline()
 			}
 		}
 		if len(lsnLines) > 0 {
-			lsnParent(a, nil)()
+			lsnParent(a, false)()
+		}
+		if len(slowLines) > 0 {
+			lsnParent(a, true)()
 		}
 		return
 	}
 	// the listener histories run in a child process (real clock, real sockets) next to the
 	// store-level kinds of this process
-	wait := func() {}
+	wait, waitSlow := func() {}, func() {}
 	if c06only {
-		wait = lsnParent(a, nil)
+		wait = lsnParent(a, false)
+		waitSlow = lsnParent(a, true)
 	}
 	lockDiscipline()
 	r := lib.NewRng(a.Seed)
@@ -476,5 +486,6 @@ func Main(c06only bool) {
 		}
 	}
 	wait()
+	waitSlow()
 	fmt.Fprintf(os.Stderr, "c06: %d cases\n", w.N())
 }
